@@ -38,6 +38,37 @@ def contract(cmd, o):
     return None
 
 
+def verbose_invocations(rep, cov, root, expect_of):
+    """Cli.tla's `verb` (how often -v is given) is not an argument of the observation: every invocation of MC_Cli_v.cfg
+    (up to 2 arguments, -v and -vvvv) must behave as the specification says - which is how it behaves without -v."""
+    r = vlib.tlc_check("MC_Cli.tla", "MC_Cli_v.cfg", workers=4, name="MC_Cli_v")
+    cov["states"] += r["states"]
+    cov["transitions"] += r["transitions"]
+    cov["tlc_runs"].append({"cfg": "MC_Cli_v.cfg", "states": r["states"], "behaviours": len(r["replay"])})
+    exp = {}
+    for b in r["replay"]:
+        if b.get("R") == "cli":
+            exp.setdefault((b["cmd"], tuple(b["args"]), b["verb"]), []).append((b["exit"], b["ok"], sorted(tuple(d) for d in b["diags"])))
+    keys = sorted(exp)
+    obs = clidrv.run_many(root, keys)
+    for key, o in zip(keys, obs):
+        cmd, args, verb = key
+        got = (o["rc"], o["ok"], [tuple(d) for d in o["diags"]])
+        if cmd == "tokenize":
+            okb = any(got[0] == e[0] and got[1] == e[1] for e in exp[key])
+        elif cmd == "echo":
+            okb = any(got[0] == e[0] for e in exp[key])
+        else:
+            okb = got in [(e[0], e[1], [tuple(d) for d in e[2]]) for e in exp[key]]
+        sig = contract(cmd, o)
+        if sig or not okb:
+            rep.add("verbosity:%s:%s" % (cmd, sig or "differs-from-specification"), labels={cmd, "verbose"},
+                    detail={"args": list(args), "verbosity": verb, "expected_one_of": exp[key], "observed": o},
+                    replay={"cmd": cmd, "args": ["-" + "v" * verb] + [clidrv.path_of(a) for a in args], "disk": "drivers/clidrv.py make_disk"})
+    cov["verbose_invocations"] = len(keys)
+    cov["traces_validated_against_impl"] += len(keys)
+
+
 def long_invocations(rep, cov, root, tier):
     """implementation -> specification: random argument lists LONGER than the exhaustive bound (4 - 8 arguments, repeated
     and overlapping paths, every command) are run and the recorded runs validated by TLC against Cli.tla (CliTrace.tla)"""
@@ -50,15 +81,15 @@ def long_invocations(rep, cov, root, tier):
     for _ in range(n):
         k = rng.randrange(4, 9)
         pool = [p for p in paths if p != "?missing" and p != "dD"] if rng.random() < 0.8 else paths
-        invs.append((rng.choice(["check", "check", "echo", "tokenize"]), tuple(rng.choice(pool) for _ in range(k))))
+        invs.append((rng.choice(["check", "check", "echo", "tokenize"]), tuple(rng.choice(pool) for _ in range(k)), rng.choice([0, 0, 1, 2, 3, 4])))
     obs = clidrv.run_many(root, invs)
     wd = vlib.workdir("c13_trace")
     nchunks = 4
     paths_out = []
     lines = [[] for _ in range(nchunks)]
-    for tid, ((cmd, args), o) in enumerate(zip(invs, obs)):
+    for tid, ((cmd, args, verb), o) in enumerate(zip(invs, obs)):
         c = lines[tid % nchunks]
-        c.append({"ev": "run", "tid": tid, "cmd": cmd, "args": list(args)})
+        c.append({"ev": "run", "tid": tid, "cmd": cmd, "args": list(args), "verb": verb})
         c.append({"ev": "obs", "rc": o["rc"] if o["rc"] is not None else -9, "ok": bool(o["ok"]), "diags": [list(d) for d in o["diags"]]})
     for k, ls in enumerate(lines):
         p = os.path.join(wd, "c%d.ndjson" % k)
@@ -75,9 +106,9 @@ def long_invocations(rep, cov, root, tier):
         cov["transitions"] += v["transitions"]
         for tid, recno in v["bad"]:
             nbad += 1
-            cmd, args = invs[tid]
+            cmd, args, verb = invs[tid]
             rep.add("trace-rejected:%s" % cmd, labels={cmd, "long-invocation"},
-                    detail={"args": list(args), "observed": obs[tid]},
+                    detail={"args": list(args), "verbosity": verb, "observed": obs[tid]},
                     replay={"cmd": cmd, "args": [clidrv.path_of(a) for a in args], "disk": "drivers/clidrv.py make_disk"})
     cov["long_invocations_validated_by_CliTrace"] = n
     cov["long_invocations_rejected"] = nbad
@@ -168,6 +199,7 @@ def main():
                         detail={"args": list(args), "check": sorted(ref), cmd: sorted(got)},
                         replay={"cmd": cmd, "args": [clidrv.path_of(a) for a in args]})
     cov["cross_command_position_comparisons"] = ncross
+    verbose_invocations(rep, cov, root, expect_of=lambda k: expect.get(k))
     long_invocations(rep, cov, root, tier)
     cov["invocations"] = len(keys)
     cov["traces_validated_against_impl"] = len(keys)
